@@ -1,4 +1,5 @@
 import UberjobModel.Model.Exec
+import UberjobModel.Model.ExecNorm
 import UberjobModel.Model.PhysDrv
 /-!
   Driver command for the execution model (stateless):
@@ -8,6 +9,7 @@ import UberjobModel.Model.PhysDrv
      `V.toStr`: `s3.1`, `a4(s3.1,a2())`, `missing7`); c0: the clock; order: the nodes in the order their effects took
      place (`o3` user call / literal, `r1` read-back, `w1` store write, `s1` store literal, `b1` Barrier)
   reply: `stores i=<term>@<t> … | slots <node>=<term> … | out <term>|-`
+  `execn | …` the same with normalising stores (`Model/ExecNorm.lean`, `tagNorm`)
 -/
 namespace Uberjob.Exec
 open Uberjob.Phys Uberjob.Cache
@@ -80,11 +82,14 @@ def drv (line : String) : String :=
   match line.splitOn "|" with
   | [hd, ns, es, rs, st, o, wd, c, ord] =>
     match toks hd, parseInput ns es rs st o, (toks wd).mapM parseStoreTok, (toks c), (toks ord).mapM parsePN with
-    | ["exec"], some P, some stores, [c0s], some order =>
-      match c0s.toInt? with
-      | none => "bad-op"
-      | some c0 =>
-        let x := order.foldl (execNode P (physFinal P)) (initX (worldOf stores) c0)
+    | [cmd], some P, some stores, [c0s], some order =>
+      match c0s.toInt?, cmd == "exec" || cmd == "execn" with
+      | none, _ => "bad-op"
+      | _, false => "bad-op"
+      | some c0, true =>
+        -- `execn`: every non-source store normalises (`tagNorm`)
+        let x := if cmd == "execn" then order.foldl (execNodeN P tagNorm (physFinal P)) (initX (worldOf stores) c0)
+                 else order.foldl (execNode P (physFinal P)) (initX (worldOf stores) c0)
         let regs := sortStrs ((P.reg.filterMap (fun r => (x.w.st r.1).map (fun vt => s!"{r.1}={vt.1.toStr}@{vt.2}"))))
         let slots := order.filterMap (fun a => match a with
           | .orig _ => some s!"{a.str}={(x.get P a).toStr}"
